@@ -1047,7 +1047,10 @@ let () =
            | _ -> None) in
          (* a panicking Into conversion in the entry_ref API is modelled (Model/PanicOps2.v) *)
          let into_panic = (armws = [["intopanic"]]) && List.mem opname ["eref_or_insert"; "eref_insert"; "eref_drop"] in
-         let other_arm = other_arm && pred_panic = None && not into_panic in
+         (* ... and so is a panicking closure handed to an entry method (replace_entry_with family, and_modify) *)
+         let entry_closure_panic = (armws = [["predpanic_nth"; "0"]]) &&
+           List.mem opname ["entry_replace"; "entry_and_replace"; "raw_replace"; "raw_and_replace"; "entry_and_modify"] in
+         let other_arm = other_arm && pred_panic = None && not into_panic && not entry_closure_panic in
          let lawful = not (is_calldep cfg.rule) && cfg.eqrule = "lawful" in
          let hf = hash_of None in
          let hasher (e : kv) = hf e.k_id in
@@ -1117,6 +1120,13 @@ let () =
                let act = (match opname with
                  | "eref_or_insert" -> ERefOrInsert | "eref_insert" -> ERefInsert (zs (List.nth opws 3)) | _ -> ERefDrop) in
                eref_into_p_step cfg.backend (hash_of panic_key) tpre (zs (List.nth opws 1)) act
+             end
+             else if entry_closure_panic then begin
+               bump branch "entry_closure_panic_model";
+               if opname = "entry_and_modify" then
+                 m_entry_and_modify_p cfg.backend cfg.tsize cfg.talign cfg.needs_drop rehash_guard_unconditional (hash_of panic_key) refuse
+                   tpre (zs (List.nth opws 1)) (zs (List.nth opws 2)) (zs (List.nth opws 4))
+               else m_entry_replace_p cfg.backend cfg.needs_drop (hash_of panic_key) tpre (zs (List.nth opws 1))
              end
              else if pred_panic <> None then begin
                bump branch "closure_panic_model";
